@@ -243,8 +243,9 @@ class DeprecatedOptions:
             elif opt.orig_type == STRING:
                 # An empty string is a value like any other: the header defines the option as ""
                 return bool(config._header_string(opt))
-            elif opt.orig_type in (INT, HEX, FLOAT) and opt.str_value != "":
-                return True
+            elif opt.orig_type in (INT, HEX, FLOAT):
+                # as for strings: the alias exists whenever the header defines the option, also with an empty value
+                return bool(config._header_string(opt))
             return False
 
         if not self.r_dic:
